@@ -1536,6 +1536,12 @@ impl ProtocolState {
             return None;
         }
 
+        // a partially-encoded operation must be serviced again as soon as the socket has room, even if
+        // every queue is empty
+        if self.current_operation.is_some() {
+            return Some(self.current_time);
+        }
+
         if !self.high_priority_operation_queue.is_empty() {
             return Some(self.current_time);
         }
